@@ -212,6 +212,9 @@ class LibMixin:
             names = [st_.target.id for st_ in cnode.body if isinstance(st_, ast.AnnAssign) and isinstance(st_.target, ast.Name)]
             vals = dict(zip(names, args))
             vals.update(kwargs)
+            for st_ in cnode.body:
+                if isinstance(st_, ast.AnnAssign) and isinstance(st_.target, ast.Name) and st_.value is not None and st_.target.id not in vals:
+                    vals[st_.target.id] = self.eval_default(st, st_.value, VConst({"module": load.get_module(cls.module), "cls": None, "closure": None, "qual": cls.name}))
             missing = [n for n in names if n not in vals]
             if missing or len(args) > len(names) or any(k not in names for k in kwargs):
                 return [self.raised(st, "TypeError", f"{cls.name}.__init__() arguments")]
